@@ -52,7 +52,7 @@ Proof. intros H P. open_msg H. rewrite P. reflexivity. Qed.
 
 Theorem reject_keepalive_te c b hd rest m t v h :
   head_at c b hd rest -> parse_head hd = Some (m, t, v, h) ->
-  can_keep_alive m v h = None ->
+  can_keep_alive (no_keep_alive c) m v h = None ->
   serve_msg whole_ops plain_dlg c b = ([EvBad400], None).
 Proof. intros H P K. open_msg H. rewrite P, K. reflexivity. Qed.
 
@@ -62,19 +62,19 @@ Theorem reject_bad_host c b hd rest m t v h :
   serve_msg whole_ops plain_dlg c b = ([EvBad400], None).
 Proof.
   intros H P K. open_msg H. rewrite P.
-  destruct (can_keep_alive m v h); [|reflexivity]. cbn [d_headers plain_dlg]. rewrite K. reflexivity.
+  destruct (can_keep_alive (no_keep_alive c) m v h); [|reflexivity]. cbn [d_headers plain_dlg]. rewrite K. reflexivity.
 Qed.
 
 Theorem reject_bad_framing c b hd rest m t v h :
   head_at c b hd rest -> parse_head hd = Some (m, t, v, h) ->
   body_plan (eff_max_body c) h = None ->
   exists pre, serve_msg whole_ops plain_dlg c b = (pre ++ [EvBad400], None) /\
-              (pre = [] \/ pre = [EvReq m t v (get_all h)]).
+              (pre = [] \/ pre = req_evs m t v h).
 Proof.
   intros H P K. open_msg H. rewrite P.
-  destruct (can_keep_alive m v h); [|exists []; auto]. cbn [d_headers plain_dlg].
+  destruct (can_keep_alive (no_keep_alive c) m v h); [|exists []; auto]. cbn [d_headers plain_dlg].
   destruct (host_check v h); [|exists []; auto]. rewrite K.
-  exists [EvReq m t v (get_all h)]. auto.
+  exists (req_evs m t v h). auto.
 Qed.
 
 (* ---------- clause: request line ---------- *)
@@ -267,11 +267,11 @@ End Chunk.
 (* a message whose chunked body is rejected: request, the data delivered so far, 400 *)
 Theorem reject_bad_chunk c b hd rest m t v h ka cs :
   head_at c b hd rest -> parse_head hd = Some (m, t, v, h) ->
-  can_keep_alive m v h = Some ka -> host_check v h = HOk ->
+  can_keep_alive (no_keep_alive c) m v h = Some ka -> host_check v h = HOk ->
   body_plan (eff_max_body c) h = Some PChunked ->
   read_chunked whole_ops c (S (length rest)) (eff_max_body c) 0 rest = (cs, BBadS) ->
   serve_msg whole_ops plain_dlg c b =
-    (EvReq m t v (get_all h) :: body_ev (concat cs) ++ [EvBad400], None).
+    ((req_evs m t v h ++ body_ev (concat cs)) ++ [EvBad400], None).
 Proof.
   intros H P K Ho Pl RC. open_msg H. rewrite P, K. cbn [d_headers plain_dlg]. rewrite Ho, Pl.
   cbn [remaining whole_ops]. rewrite RC. reflexivity.
@@ -279,11 +279,11 @@ Qed.
 
 Theorem close_on_long_chunk_line c b hd rest m t v h ka cs :
   head_at c b hd rest -> parse_head hd = Some (m, t, v, h) ->
-  can_keep_alive m v h = Some ka -> host_check v h = HOk ->
+  can_keep_alive (no_keep_alive c) m v h = Some ka -> host_check v h = HOk ->
   body_plan (eff_max_body c) h = Some PChunked ->
   read_chunked whole_ops c (S (length rest)) (eff_max_body c) 0 rest = (cs, BUnsatS) ->
   serve_msg whole_ops plain_dlg c b =
-    (EvReq m t v (get_all h) :: body_ev (concat cs) ++ [EvClosed], None).
+    ((req_evs m t v h ++ body_ev (concat cs)) ++ [EvClosed], None).
 Proof.
   intros H P K Ho Pl RC. open_msg H. rewrite P, K. cbn [d_headers plain_dlg]. rewrite Ho, Pl.
   cbn [remaining whole_ops]. rewrite RC. reflexivity.
